@@ -131,6 +131,13 @@ def run(ctx):
                           "steps": [], "free": {"nevents": rng.choice([1, 5, 40, 250]), "broker_us": rng.choice([0, 0, 50, 500, 3000]),
                                                 "close_at_us": rng.choice([0, 0, 10, 200, 2000]), "seed": rng.randint(1, 1 << 30)}})
 
+    # a flood against a stalled broker: more events than any plausible internal bound, nothing taken by the broker
+    for (np_, nev) in ([(3, 30000)] if quick else [(3, 30000), (1, 120000), (2, 60000)]):
+        sid += 1
+        scenarios.append({"id": sid, "cfg": {"producers": ["p1", "p2", "p3", "p4"][:np_], "chancap": 10000}, "steps": [], "origin": "flood",
+                          "free": {"nevents": nev, "broker_us": 0, "close_at_us": 0, "seed": rng.randint(1, 1 << 30), "stall": True}})
+        nfree += 1
+
     # 3. replay on the real code
     binp = ctx.build("eventwriter")
     scn_file = ctx.path("scenarios.ndjson")
